@@ -250,6 +250,13 @@ func (d *Descriptor) readAsMapEntry(out Outputter, data []byte) (n int, err erro
 		return
 	}
 
+	// The key or the value are left out of the data if they are zero. JSON
+	// needs both, so first we find them, then we output them.
+	var (
+		fields [2][]byte
+		found  [2]bool
+	)
+
 	l := len(data)
 
 	var offset int
@@ -260,48 +267,82 @@ func (d *Descriptor) readAsMapEntry(out Outputter, data []byte) (n int, err erro
 		}
 		offset += n
 
-		var elt *Descriptor
+		which := -1
 		for i := range d.Elements {
-			candidate := &d.Elements[i]
-			if candidate.Index == index {
-				elt = candidate
+			if d.Elements[i].Index == index {
+				which = i
 				break
 			}
 		}
 
-		if elt == nil {
+		n, err := plenccore.Skip(data[offset:], wt)
+		if err != nil {
+			return 0, fmt.Errorf("failed to skip field %d in %s: %w", index, d.Name, err)
+		}
+		field := data[offset : offset+n]
+		offset += n
+		if which < 0 {
 			// Field corresponding to index does not exist
-			n, err := plenccore.Skip(data[offset:], wt)
-			if err != nil {
-				return 0, fmt.Errorf("failed to skip field %d in %s: %w", index, d.Name, err)
-			}
-			offset += n
 			continue
 		}
 
-		fl := l
 		if wt == plenccore.WTLength {
-			// For WTLength types we read out the length and ensure the data we
-			// read the field from is the right length
-			v, n := plenccore.ReadVarUint(data[offset:])
-			if n <= 0 {
-				return 0, fmt.Errorf("varuint overflow reading field %d of %s", index, d.Name)
-			}
-			offset += n
-			if v > uint64(l-offset) {
-				return 0, fmt.Errorf("length %d of field %d of %s exceeds data length", v, index, d.Name)
-			}
-			fl = int(v) + offset
+			// For WTLength types the field data follows the length
+			_, n := plenccore.ReadVarUint(field)
+			field = field[n:]
 		}
+		fields[which], found[which] = field, true
+	}
 
-		n, err := elt.read(out, data[offset:fl])
-		if err != nil {
-			return 0, fmt.Errorf("failed reading field %d(%s) of %s. %w", index, elt.Name, d.Name, err)
+	for i := range d.Elements {
+		elt := &d.Elements[i]
+		if !found[i] {
+			elt.zero(out)
+			continue
 		}
-		offset += n
+		if _, err := elt.read(out, fields[i]); err != nil {
+			return 0, fmt.Errorf("failed reading field %d(%s) of %s. %w", elt.Index, elt.Name, d.Name, err)
+		}
 	}
 
 	return offset, nil
+}
+
+// zero outputs the value for a field that is not present in the data
+func (d *Descriptor) zero(out Outputter) {
+	if d.ExplicitPresence {
+		out.Raw("null")
+		return
+	}
+	switch d.Type {
+	case FieldTypeInt, FieldTypeFlatInt:
+		if d.LogicalType == LogicalTypeTimestamp {
+			out.Time(time.Time{})
+		} else {
+			out.Int64(0)
+		}
+	case FieldTypeUint:
+		out.Uint64(0)
+	case FieldTypeFloat32, FieldTypeFloat64:
+		out.Float64(0)
+	case FieldTypeString:
+		out.String("")
+	case FieldTypeBool:
+		out.Bool(false)
+	case FieldTypeTime:
+		out.Time(time.Time{})
+	case FieldTypeSlice, FieldTypeJSONArray:
+		if d.isValidJSONMap() {
+			out.StartObject()
+			out.EndObject()
+		} else {
+			out.StartArray()
+			out.EndArray()
+		}
+	case FieldTypeStruct, FieldTypeJSONObject:
+		out.StartObject()
+		out.EndObject()
+	}
 }
 
 func (d *Descriptor) readAsStruct(out Outputter, data []byte) (n int, err error) {
